@@ -17,7 +17,7 @@ import itertools
 from typing import Dict, List, Optional, Set, Tuple
 
 from ..absstr import AbsStr, Evaluator, alphabet_of, concat, lit, simplify
-from ..astq import assignments, calls, names_in, stmts
+from ..astq import assignments, calls, kwarg, names_in, stmts
 from ..cfg import cond_atoms, flatten_conj, path_conditions
 from ..regexlang import Lang, Seg, show
 from ..report import Check
@@ -48,6 +48,14 @@ def run(chk: Check, proj: Project) -> None:
     s3_provenance(chk, proj, w)
     s4_once(chk, proj, w)
     s5_fragment_guard(chk, proj)
+    s6_marker_always_emitted(chk, proj, w)
+    from . import C08
+
+    sub = Check(chk.pid, chk.tier, chk.seed, quiet=True)
+    C08.s6_gating(sub, proj, proj.mod("dependencies"))
+    for o in sub.obls:
+        chk.obls.append(type(o)(f"{chk.pid}-S7", o.construct, o.loc, o.verdict, o.message, o.nontrivial, o.detail))
+    chk.rule("S7", "default-location insertion: a kind is suppressed only by its OWN placeholder and gets its own tags (shared with C08-S6)")
 
 
 def check_inclusion(chk: Check, rule: str, key: str, loc: str, lang: Lang, alts: AbsStr, what: str, reader: str) -> bool:
@@ -311,6 +319,37 @@ def s5_fragment_guard(chk: Check, proj: Project) -> None:
     missing = payload - gnames
     chk.ob("S5", "dependencies:_gen_exec_script:guard-covers-payload", m.loc(guard), not missing and bool(payload),
            f"guard covers all {len(payload)} payload lists" if not missing else f"the guard returns None without looking at {sorted(missing)}: a fragment that only has those never declares them to the client-side loader")
+
+
+def s6_marker_always_emitted(chk: Check, proj: Project, w) -> None:
+    chk.rule("S6", "the deferred renderer emits the dependency marker for EVERY rendered instance: insert_component_dependencies_comment dominates every return and its result is what is returned")
+    r = proj.try_func("component", "Component._gen_component_renderer.renderer")
+    if r is None:
+        raise AnalysisError("anchor vanished: Component._gen_component_renderer.renderer")
+    m, f = r
+    chk.analysed("django_components.component:Component._gen_component_renderer.renderer")
+    cfg = w.pair.cfgs.get(f)
+    dom = cfg.dominators()
+    ic = calls(f, "insert_component_dependencies_comment")
+    rets = [n for n in cfg.nodes if n.kind == "return"]
+    ok = bool(ic) and bool(rets) and all(any(cfg.dominates(sn, rn, dom) for c in ic for sn in cfg.node_containing(c)) for rn in rets)
+    chk.ob("S6", "component:renderer:marker-dominates-returns", m.loc(ic[0]) if ic else m.loc(f), ok,
+           "every return of the renderer is dominated by insert_component_dependencies_comment(...)" if ok else
+           "the renderer can return without inserting the dependency marker (an early-return shortcut): a component class whose instances take that path is never harvested, so its JS/CSS and Media are missing")
+    if ic:
+        st = enclosing_stmt(ic[0])
+        tv = norm(st.targets[0]) if isinstance(st, ast.Assign) else None
+        returned = [norm(n.ast.value.elts[0]) for n in rets if isinstance(n.ast, ast.Return) and isinstance(n.ast.value, ast.Tuple) and n.ast.value.elts]
+        ok2 = tv is not None and bool(returned) and all(x == tv for x in returned)
+        chk.ob("S6", "component:renderer:returns-marked-html", m.loc(st), ok2, f"the returned HTML is `{tv}`, the result of the marker insertion")
+        cid = kwarg(ic[0], "component_cls")
+        chk.ob("S6", "component:renderer:marker-class", m.loc(ic[0]), cid is not None and "__class__" in " ".join(norm(v) for _s, v in assignments(enclosing_func_of(f), norm(cid)) if v is not None) if cid is not None else False, "the marker names the class of the component being rendered")
+
+
+def enclosing_func_of(f):
+    from ..source import enclosing_func
+
+    return enclosing_func(f) or f
 
 
 MANIFEST = {
